@@ -23,7 +23,7 @@ ASSUMPTIONS = ["astropy.wcs is the oracle for pixel -> sky"]
 
 def cases(tier, seed):
     R = random.Random("c16/%d" % seed)
-    n = 40 if tier == "quick" else 1000
+    n = 40 if tier == "quick" else 4000
     out = [dict(n=16 if tier == "quick" else 20, seed=R.randrange(1 << 30)) for _ in range(n)]
     out.append(dict(repo_files=True, n=0, seed=1))
     return out
